@@ -198,9 +198,15 @@ build(void)
     return NULL;
 }
 
+/* chainx: like chain, but EVERY chunk is fed whatever the earlier feeds answered and done() is always called;
+ * prints the verdict of each feed (T/F, "." when there is none), then the verdict of done, then the sinks */
+static bool keepgoing;
+
 static void
 c_chain(void)
 {
+    char verdicts[256] = "";
+    size_t nv = 0;
     nsinks = 0;
     P = F[1];
     jose_io_t *io = build();
@@ -219,16 +225,23 @@ c_chain(void)
             size_t l = (size_t) strtoul(c, &e, 10);
             c = (*e == ',') ? e + 1 : e;
             if (off + l > data.n) l = data.n - off;
-            if (!io->feed(io, data.p + off, l)) { ok = false; break; }
+            bool r = io->feed(io, data.p + off, l);
+            if (nv < sizeof(verdicts) - 1) verdicts[nv++] = r ? 'T' : 'F';
+            if (!r) { ok = false; if (!keepgoing) break; }
             off += l;
-            accepted++;
+            if (r) accepted++;
         }
     }
-    printf("%d ", accepted);
-    if (ok)
+    if (keepgoing) {
+        printf("%s ", nv ? verdicts : ".");
         fputs(io->done(io) ? "T" : "F", stdout);
-    else
-        fputs("-", stdout);
+    } else {
+        printf("%d ", accepted);
+        if (ok)
+            fputs(io->done(io) ? "T" : "F", stdout);
+        else
+            fputs("-", stdout);
+    }
     for (int i = 0; i < nsinks; i++) {
         sinkrec_t *s = &sinks[i];
         putchar(' ');
@@ -270,8 +283,17 @@ out:
     free(data.p);
 }
 
+static void
+c_chainx(void)
+{
+    keepgoing = true;
+    c_chain();
+    keepgoing = false;
+}
+
 static const cmd_t cmds_io[] = {
     { "chain", c_chain },
+    { "chainx", c_chainx },
     { NULL, NULL }
 };
 REGISTER(cmds_io)
